@@ -2,7 +2,7 @@
 import ast
 
 from ..model import AnalysisError, dotted, unparse
-from ..util import U, enum_paths, walk_no_nested, is_yield_call
+from ..util import POS, U, enum_paths, walk_no_nested, is_yield_call
 from ..paths import call_attr, call_name
 from .c03 import facts, add_remove
 
@@ -75,7 +75,7 @@ def r2(ctx):
   seen = {}
   for ev, ex in enum_paths(ctx, j):
     fs = facts(ev)
-    dup = [(c, t) for c, t in fs if c.endswith('inself._servers')]
+    dup = [(c, t) for c, t in POS(fs) if c.endswith('inself._servers')]
     add = [e for e in ev if e.kind == 'call' and U(e.node.func).endswith('__AddServer')]
     if any(t and 'notin' not in c for c, t in dup) or any((not t) and 'notin' in c for c, t in dup):
       seen['dup'] = not add
@@ -87,7 +87,7 @@ def r2(ctx):
     fs = facts(ev)
     st = [e.node for e in ev if e.kind == 'stmt' and isinstance(e.node, ast.Assign) and isinstance(e.node.targets[0], ast.Subscript) and U(e.node.targets[0].value) == 'self._servers']
     ch = [e.node for e in ev if e.kind == 'call' and U(e.node.func) == 'self._OnServersChanged']
-    present = any(('in' in c and 'self._servers' in c) and ((t and 'notin' not in c and not c.startswith('not')) or ((not t) and (c.startswith('not') or 'notin' in c))) for c, t in fs)
+    present = any(('in' in c and 'self._servers' in c) and ((t and 'notin' not in c and not c.startswith('not')) or ((not t) and (c.startswith('not') or 'notin' in c))) for c, t in POS(fs))
     if present:
       ctx.ob('C05.R2', a, 'an endpoint already present is not added twice', not st and not ch, 'present branch changes state', why)
     else:
@@ -110,7 +110,7 @@ def r2(ctx):
   for ev, ex in enum_paths(ctx, l):
     rm = [e for e in ev if e.kind == 'call' and U(e.node.func).endswith('__RemoveServer')]
     fs = facts(ev)
-    unknown = any(c.endswith('inself._servers') and 'notin' not in c and not t for c, t in fs) or any(c.endswith('notinself._servers') and t for c, t in fs)
+    unknown = any(c.endswith('inself._servers') and 'notin' not in c and not t for c, t in POS(fs)) or any(c.endswith('notinself._servers') and t for c, t in POS(fs))
     ok = (len(rm) == 1 and [U(a_) for a_ in rm[0].node.args] == [l.params[1]]) or (not rm and unknown)
     ctx.ob('C05.R2', l, 'every leave of a known member reaches __RemoveServer', ok and ex[0] == 'ret', 'leave path removes %d times under %s' % (len(rm), fs), why)
   ge = prog.func(B, 'LoadBalancerSink.__GetEndpoint')
